@@ -210,6 +210,20 @@ def check_frames(res, L, rng, tag, reps):
                 if a_b or b_a or (a_b != b_a):
                     res.violate('is_innermorphic_to accepts frames whose inner products differ (or is not symmetric)', dict(inp, factor=str(fac)),
                                 [bool(a_b), bool(b_a)], [False, False], dict(site, op='innermorphic'))
+            # "exactly when all pairwise inner products agree within eps": a tiny exact perturbation (factor 1 + 2^-20 on the first vector changes
+            # the products g_0j by exactly |g_0j| 2^-20), tested with the default eps, with an eps just above and one just below the change
+            if any(gram[0][j] != 0 for j in range(1, k)):
+                tiny = cf.Frame([(1.0 + 2.0 ** -20) * vecs[0]] + [1.0 * v for v in vecs[1:]])
+                dmax = max(abs(gram[0][j]) for j in range(1, k)) * 2.0 ** -20
+                res.case(('innermorphic-eps', tag, coeffs.tolist()))
+                res.count('innermorphic_eps')
+                for eps_, want in ((None, False), (2 * dmax, True), (dmax / 2, False)):
+                    kw = {} if eps_ is None else dict(eps=eps_)
+                    a_b, b_a = Fr.is_innermorphic_to(tiny, **kw), tiny.is_innermorphic_to(Fr, **kw)
+                    if bool(a_b) != want or bool(b_a) != want:
+                        res.violate('is_innermorphic_to is not "all pairwise inner products agree within eps" (or is not symmetric)',
+                                    dict(inp, perturbation='first vector times 1 + 2^-20', eps=eps_, largest_change=dmax),
+                                    [bool(a_b), bool(b_a)], [want, want], dict(site, op='innermorphic-eps'))
 
 
 def check_blademap(res, rng, tag, ob):
